@@ -40,6 +40,18 @@ CLAIMED['C12'] = dict(
     technique='contract-based deductive verification: proof harness (lemma) over the inlined real methods -> z3; frame scan of the AST',
     design='3 C12')
 
+CLAIMED['C10'] = dict(
+    text='Unbounded proof that the real source of mro.MergeSequences (3 nested loops, in-place deletion through aliases), '
+         'Dedup and MROMerge computes exactly the chain of CPython pmerge steps (candidate = head of the first sequence whose head '
+         'is in no tail; advance every sequence with that head) and raises iff the chain gets stuck. Class.compute_mro, which builds '
+         'the rows (and now refuses duplicate bases), and attribute lookup are covered only by a bounded sweep through the real VM '
+         'against type().',
+    note='Trusted: engine/, z3, A-SPEC (StepP transliterates typeobject.c pmerge; validated against type() on every hierarchy of '
+         '<=5 classes), preconditions: distinct elements per row (Dedup), no SINGLETON classes, inner lists are distinct objects. '
+         'compute_mro/_ComputeMRO/attribute lookup: bounded only.',
+    technique='contract-based deductive verification: Python ast -> VC generator (ghost history, loop invariants, alias write-through) -> z3',
+    design='3 C10')
+
 NOT_APPLICABLE = {
     'C01': 'whole abstract interpreter vs CPython execution: no function-level contract expresses over-approximation of execution (DESIGN 4)',
     'C02': 'decided by matcher.py (2000 lines) on live VM values; the inhabitant oracle quantifies over programs, not one call (DESIGN 4)',
